@@ -12,6 +12,8 @@
 (*   hi        floor(fp * lambda_min(S + esc I - C) / tr C)      (OCO!Bracket, upper half)       *)
 (*   aerr      ceil(fp * |alpha' - alpha - f2/2 rho^2| / tr C)   (OCO!AlphaLaw, incremental)     *)
 (*   lossless  the history so far has rank < k;  escfp = ceil(fp * esc / tr C)  (OCO!Lossless)  *)
+(*   fmfp      ceil(fp * max|w - w_fm| / max|w_fm|), w_fm the iterate of exact full-matrix       *)
+(*             AdaGrad on the same history (S_ADA, delta > 0 = cfg.dpos, while lossless)         *)
 (* with S = P^T diag(e^2) P, C the exact second moment of the sketch inputs, rho^2 the smallest  *)
 (* squared singular value of the matrix the step factors (measured by the harness with numpy,    *)
 (* independently of the implementation's own arithmetic) and esc its running sum.  Margins are   *)
@@ -35,6 +37,7 @@ Verdict(e) ==
   ELSE IF TC.f2 # AlphaFactor2(TC.alg) THEN "alpha_factor_of_trace_disagrees_with_spec"
   ELSE IF e.aerr > TC.tolfp THEN "alpha_law"
   ELSE IF e.lossless /\ e.escfp > TC.tolfp THEN "lossless_but_escaped"
+  ELSE IF e.lossless /\ TC.alg = "S_ADA" /\ TC.dpos /\ e.fmfp > TC.tolfp THEN "lossless_not_full_matrix_adagrad"
   ELSE "ok"
 
 TraceInit == /\ tid \in 1..Len(Traces) /\ l = 1 /\ bad = "ok"
